@@ -1,7 +1,7 @@
 From Coq Require Import List NArith Bool Arith Permutation Lia.
 Import ListNotations.
 Require Import MV.Common.Interleave MV.C05.Model MV.C05.Spec MV.C05.Exec.
-Require Import MV.C05.ProofsSeq MV.C05.ProofsInv MV.C05.ProofsCor MV.C05.ProofsUniq MV.C05.ProofsCons MV.C05.ProofsProg.
+Require Import MV.C05.ProofsSeq MV.C05.ProofsInv MV.C05.ProofsCor MV.C05.ProofsUniq MV.C05.ProofsCons MV.C05.ProofsProg MV.C05.ProofsSnap MV.C05.ProofsEmpty MV.C05.ProofsOrder MV.C05.ProofsSpec.
 Local Open Scope nat_scope.
 Require Import MV.C05.Properties.
 
@@ -96,6 +96,63 @@ Check (C05_conservation_on_model_runs : forall c, known_class c = None ->
   let cf := fst (run_gen BS true true c) in
   late (fst cf) = false /\ AllK BS cf /\ R (fst c) cf).
 Print Assumptions C05_conservation_on_model_runs.
+Check (C05_snapshot_sees_completed : forall B fxc ps sched0 sched t l b0, 1 <= B ->
+  let c := fst (exec (step B true fxc) site (init_config ps) sched0) in
+  nth_error (snd c) t = Some l -> pcl l = W1 false b0 [] ->
+  let c' := fst (exec (step B true fxc) site c sched) in
+  forall l', nth_error (snd c') t = Some l' ->
+  (results l' = results l /\
+   exists acc o, walk_pos (heap (fst c')) l' = Some (acc, o) /\
+     forall d i x, Reach (heap (fst c)) (Some b0) d -> slot (heap (fst c)) d i = Some x -> pub (heap (fst c)) d i ->
+                   In x (concat acc) \/ Reach (heap (fst c')) o d) \/
+  (exists rs1 sl, results l' = rs1 ++ RData sl :: results l /\
+     forall d i x, Reach (heap (fst c)) (Some b0) d -> slot (heap (fst c)) d i = Some x -> pub (heap (fst c)) d i ->
+                   In x (concat sl))).
+Print Assumptions C05_snapshot_sees_completed.
+Check (C05_snapshot_first_step : forall B fxc s l b0,
+  pcl l = W0 false -> tail s = Some b0 -> step B true fxc s l = Some (s, goto l (W1 false b0 []))).
+Print Assumptions C05_snapshot_first_step.
+Check (C05_is_empty_sound : forall B ps sched0 sched t l b0, 1 <= B ->
+  let c := fst (exec (step B true true) site (init_config ps) sched0) in
+  nth_error (snd c) t = Some l -> pcl l = E1 b0 ->
+  let h := heap (fst c) in
+  let c' := fst (exec (step B true true) site c sched) in
+  forall l' rs1 r, nth_error (snd c') t = Some l' -> results l' = rs1 ++ REmpty r :: results l ->
+  (r = true ->
+     (forall i, ~ pub h b0 i) /\
+     (forall nb, bnxt (getb h b0) = Some nb -> (forall i, ~ pub h nb i) /\ B < length (snd c)) /\
+     (length (snd c) <= B -> forall d i, Reach h (Some b0) d -> ~ pub h d i)) /\
+  (r = false -> exists d i, pub (heap (fst c')) d i)).
+Print Assumptions C05_is_empty_sound.
+Check (C05_block_order : forall B fxc ps sched0, 1 <= B ->
+  let c := fst (exec (step B true fxc) site (init_config ps) sched0) in
+  forall b, b < length (heap (fst c)) ->
+  (let k := getb (heap (fst c)) b in
+   let data := data_of k (tones (bdone k)) in
+   length data = tones (bdone k) /\
+   forall j, j < tones (bdone k) -> exists x, slot (heap (fst c)) b j = Some x /\ nth j data garbage = x) /\
+  (forall i, i < B ->
+     (pub (heap (fst c)) b i \/ exists t l, nth_error (snd c) t = Some l /\ inflight b i l = 1) ->
+     i < bw (getb (heap (fst c)) b)) /\
+  (forall sched, let c' := fst (exec (step B true fxc) site c sched) in
+     b < length (heap (fst c')) /\ bw (getb (heap (fst c)) b) <= bw (getb (heap (fst c')) b)) /\
+  (forall l x sec, pcl l = P2 x b sec -> bw (getb (heap (fst c)) b) < B ->
+     exists s', step B true fxc (fst c) l = Some (s', goto l (P3 x b (bw (getb (heap (fst c)) b)))) /\
+                bw (getb (heap s') b) = S (bw (getb (heap (fst c)) b)))).
+Print Assumptions C05_block_order.
+Check (C05_spec_ok_sound : forall (c : case) tr rss done final anom,
+  spec_ok c (tr, rss, done, final, anom) = true ->
+  anom = 0%N /\ all2 follows (fst c) rss = true /\
+  NoDup (map vid (cleared_out rss)) /\ NoDup (map vid (concat final)) /\
+  (done = true ->
+     NoDup (map vid (cleared_out rss ++ concat final)) /\
+     (forall x, In x (all_pushes (fst c) 0) -> In (vid x) (map vid (cleared_out rss ++ concat final))) /\
+     length (cleared_out rss ++ concat final) = length (all_pushes (fst c) 0))).
+Print Assumptions C05_spec_ok_sound.
+Check (C05_spec_no_double_clear_on_model : forall c : case,
+  let '(tr, rss, _, _, _) := run_case c in
+  nodupb (flat_map handed (filter is_clear (rcalls tr 0 rss))) = true).
+Print Assumptions C05_spec_no_double_clear_on_model.
 Check (C05_late_claim_refutes : exists c, known_class c = Some 1%N /\ spec_ok c (run_case c) = false).
 Print Assumptions C05_late_claim_refutes.
 Check (C05_handover_refuted_before_fix : late_claim_gen 2 false true handover_case = false /\ spec_gen 2 false true handover_case = false /\
